@@ -6,14 +6,14 @@ from hypothesis import strategies as st
 from lib import gens, refids
 from lib.runner import Stage, Violation, hyp_drive
 
-RULE = ("(list of cells with repeats in any order, target t): resolutions -1..29, t in 0..29, total expansion <= 4^7; a "
-        "second class has one element (first/middle/last) finer than t and must raise. Oracle: output = concatenation in "
+RULE = ("(list of cells with repeats in any order, target t): resolutions -1..29, t in 0..29, total expansion <= 4^7; a class of contiguous runs (slices of a cell's descendants starting anywhere, with gaps); a "
+        "further class has one element (first/middle/last) finer than t and must raise. Oracle: output = concatenation in "
         "input order of blocks of refids.nchildren(res,t) ids, each block the reference descendants (ascending for res>=1), "
         "all of res t, each mapping back through cell_to_parent; length = sum of get_num_children; argument unchanged. "
         "Non-trivial = >=2 input cells of different resolutions and output longer than input (or the error class); "
         "distinct by (cells, t).")
 ASSUMPTIONS = ["documented id layout is the specification (refids)"]
-REQUIRED_CLASSES = {"mixed_resolutions": ("ok", 0.3), "error_class": (None, 0.1), "has_repeats": ("ok", 0.05)}
+REQUIRED_CLASSES = {"mixed_resolutions": ("ok", 0.2), "error_class": (None, 0.1), "has_repeats": ("ok", 0.05), "contiguous_run>=16": ("ok", 0.01)}
 BUDGET = 4 ** 7
 
 
@@ -68,6 +68,16 @@ def judge(case, col):
         classes.append("has_repeats")
     if -1 in resl:
         classes.append("has_world")
+    # longest run of numerically consecutive same-resolution ids
+    best = cur = 1
+    for a, b, ra, rb in zip(cells, cells[1:], resl, resl[1:]):
+        if ra == rb and ra >= 2 and b - a == 1 << (60 - 2 * ra):
+            cur += 1
+            best = max(best, cur)
+        else:
+            cur = 1
+    if best >= 16:
+        classes.append("contiguous_run>=16")
     col.case(case, nontrivial=len(set(resl)) >= 2 and len(out) > len(cells), classes=classes)
 
 
@@ -92,6 +102,25 @@ def cases(draw):
             c = draw(gens.cell_ids(max(r, 0), max(r, 0))) if r >= 0 else 0
         budget -= refids.nchildren(r, t)
         cells.append(c)
+    if t >= 3 and draw(st.integers(0, 3)) == 0:
+        # contiguous runs: a slice of some cell's descendants (what a filled region refined further looks like),
+        # starting anywhere (not only on sibling-group boundaries), optionally with a few gaps
+        d = draw(st.integers(1, 2))
+        r = t - d                                        # resolution of the run's cells
+        span = draw(st.integers(2, 3))
+        if r - span >= 1:
+            base = draw(gens.cell_ids(r - span, r - span))
+            pool = refids.children(base, r)              # 16 or 64 consecutive cells
+            i = draw(st.integers(0, len(pool) - 2))
+            j = draw(st.integers(i + 1, len(pool)))
+            run = pool[i:j]
+            ngap = draw(st.integers(0, 2))
+            for _ in range(ngap):
+                if len(run) > 2:
+                    del run[draw(st.integers(0, len(run) - 1))]
+            if sum(refids.nchildren(r, t) for _ in run) <= BUDGET:
+                pre = cells[:1] if draw(st.booleans()) else []
+                cells = pre + run
     case = {"cells": [hex(c) for c in cells], "t": t}
     if t < 29 and draw(st.integers(0, 3)) == 0:
         finer = draw(gens.cell_ids(t + 1, min(29, t + 3)))
@@ -103,7 +132,7 @@ def cases(draw):
 
 
 def stage_hyp(ctx):
-    hyp_drive(ctx, cases(), judge, 900 if ctx.tier == "quick" else 8000)
+    hyp_drive(ctx, cases(), judge, 700 if ctx.tier == "quick" else 8000)
 
 
 def decode_case(fdp):
